@@ -1324,6 +1324,10 @@ def run(ctx):
     imported(ctx, C14.rule_K3)
     imported(ctx, C14.rule_K4)
     imported(ctx, C14.rule_K6)
+    # a node's vectors are the tree's own: grafted / copied / restored trees share no payload with their source
+    from . import _premises
+
+    _premises.deep_copies(ctx)
 
 
 # Self-test catalogue: one textual edit each, applied to a scratch copy (see selftest.py).
